@@ -13,6 +13,10 @@ BACKEND_STAGE = {"unreachable": "SConnect", "close-before-headers": "SBackendHea
                  "reset-mid-body": "SBackendBody", "close-mid-chunked": "SBackendBody", "bad-chunk": "SBackendBody", "huge-header": None}
 
 
+# 14 consecutive failures: back-off 1, 2, 4, ... 2048 ms, then the 3 s cap twice, each +10 % jitter at most, plus slack for the probes
+LONG_OUTAGE_MS = int(1.1 * (4095 + 2 * 3000)) + 1500
+
+
 class C07(Prop):
     pid = "C07"
     props_file = "Props/C07.v"
@@ -53,6 +57,8 @@ class C07(Prop):
         for r in obs["rows"]:
             f = r["fault"]
             rp = {"driver": "TestVerifC07: fault injected among healthy probes (real pollForNewRequests / handler chain / response forwarder)", "config": r["config"], "fault": f, "observed": {k: v for k, v in r.items() if k not in ("kind", "fault", "config")}}
+            if f["kind"] == "500-x14" and r.get("loop_ms", 0) > LONG_OUTAGE_MS:
+                res.append(("requests-after-outage-served-late:list", "after 14 failed pending-list calls the agent needed %d ms to get to the requests listed next (the capped back-off allows %d ms)" % (r["loop_ms"], LONG_OUTAGE_MS), rp))
             if r.get("error"):
                 res.append(("agent-wedged:%s" % f["point"], r["error"], rp))
                 continue
